@@ -456,9 +456,12 @@ theorem call_illtyped (env : Env) (rf : Form → MState → List Glyph × Bool) 
     (hb : NoBool args) (hw : wellTyped tys args = false)
     (hdyn : op ≠ .sc ∧ op ≠ .scn ∧ op ≠ .SC ∧ op ≠ .SCN) :
     call env rf m op args = (m, []) := by
-  cases op <;> simp only [sig, Option.some.injEq, reduceCtorEq] at hsig <;> subst hsig <;>
+  cases op
+  case other n => simp [call]
+  all_goals
+    (simp only [sig, Option.some.injEq, reduceCtorEq] at hsig <;> subst hsig <;>
     (rcases args with _ | ⟨a, _ | ⟨b, _ | ⟨c, _ | ⟨d, _ | ⟨e, _ | ⟨f, _ | ⟨g, rest⟩⟩⟩⟩⟩⟩⟩ <;>
-      simp only [List.length_cons, List.length_nil, List.length_replicate] at hlen <;> try omega)
+      simp only [List.length_cons, List.length_nil, List.length_replicate] at hlen <;> try omega))
   all_goals first
     | (simp [wellTyped] at hw; done)
     | (have hn := safeFloats_none _ hb (by simpa [List.replicate] using hw); simp [call, hn]; done)
@@ -479,11 +482,36 @@ theorem call_illtyped (env : Env) (rf : Form → MState → List Glyph × Bool) 
   case CS => cases a <;> simp_all [call, wellTyped, Ty.ok]
   case Do => cases a <;> simp_all [call, wellTyped, Ty.ok]
 
+theorem lookup_all (t u : List (String × Nat)) (hall : t.all (fun p => lookup p.1 u == some p.2) = true)
+    (n : String) (k : Nat) (h : lookup n t = some k) : lookup n u = some k := by
+  induction t with
+  | nil => simp [lookup] at h
+  | cons p rest ih =>
+    obtain ⟨n', k'⟩ := p
+    simp only [List.all_cons, Bool.and_eq_true, beq_iff_eq] at hall
+    simp only [lookup] at h
+    split at h
+    · rename_i heq
+      simp only [Option.some.injEq] at h
+      subst heq; subst h
+      exact hall.1
+    · exact ih hall.2 h
+
+/-- Every operator the text model lists as "no effect on text" exists in pdfminer's dispatch table
+(regenerated from the `do_*` methods) with the number of operands ISO gives it. -/
+theorem neutral_arity (n : String) (k : Nat) (h : neutralArity n = some k) : arity (.other n) = some k :=
+  lookup_all neutralTable arityTable (by decide +kernel) n k h
+
 theorem arity_sig (gs : GS) (op : Op) (tys : List Ty) (hsig : sig gs op = some tys)
     (hdyn : op ≠ .sc ∧ op ≠ .scn ∧ op ≠ .SC ∧ op ≠ .SCN) : arity op = some tys.length := by
   cases op <;> simp only [sig, Option.some.injEq, reduceCtorEq] at hsig <;> first
     | (subst hsig; decide)
     | (simp at hdyn)
+    | skip
+  case other n =>
+    simp only [Option.map_eq_some_iff] at hsig
+    obtain ⟨k, hk, rfl⟩ := hsig
+    simp [neutral_arity n k hk]
 
 theorem doSetColor_illtyped (m : MState) (stroke : Bool) (n : Nat) (args : List Obj)
     (hn : (if stroke then m.scs.2 else m.ncs.2) = n) (h134 : 0 < n)
@@ -1330,6 +1358,12 @@ theorem exec_sim (hrf : Agree env rfM rfS) (op : Op) (tys : List Ty) (hR : R env
     case cs => exact sim_cs env rfM rfS m s s' args gl hR hw happ
     case CS => exact sim_CS env rfM rfS m s s' args gl hR hw happ
     case Do => exact sim_Do env rfM rfS m s s' args gl hrf hR hw happ
+    case other n =>
+      simp only [apply, Option.some.injEq, Prod.mk.injEq] at happ
+      obtain ⟨rfl, rfl⟩ := happ
+      have hc : call env rfM m (Op.other n) args = (m, []) := by simp [call]
+      rw [hc]
+      exact ⟨hR, rfl⟩
     all_goals (simp at hdyn)
   · have hop : op = .sc ∨ op = .scn ∨ op = .SC ∨ op = .SCN := by
       by_cases h1 : op = .sc
